@@ -128,8 +128,22 @@ func genSpec(c *vh.Ctx, must uint16) *tls.ClientHelloSpec {
 	// every other extension type the JSON format can express: the forced one always, the others with probability 1/3
 	expressible, _ := jsonTypes()
 	withPSK := false
+	// sizeMode 1: a short hello (unpadded < 256: only the forced type and padding); 2: a long one (> 512: many more
+	// cipher suites); both always carry a padding extension, so explicit padding lengths are seen at every hello size
+	if sizeMode == 2 {
+		for k := 0; k < 130; k++ {
+			spec.CipherSuites = append(spec.CipherSuites, allSuites[r.Intn(len(allSuites))])
+		}
+	}
 	for _, id := range expressible {
-		if base[id] || !(id == must || r.Intn(3) == 0) {
+		pick := id == must || r.Intn(3) == 0
+		if sizeMode == 1 {
+			pick = id == must
+		}
+		if sizeMode != 0 && id == 21 {
+			pick = true
+		}
+		if base[id] || !pick {
 			continue
 		}
 		if id == 41 {
@@ -159,6 +173,8 @@ func genSpec(c *vh.Ctx, must uint16) *tls.ClientHelloSpec {
 }
 
 var noEmptyLists bool
+var padCycle int
+var sizeMode int // 0 normal, 1 short, 2 long
 
 // genExt builds one extension of the given type with random content, optional parts present or absent.
 // A type the runner has no builder for is emitted with an empty body (and reported), so that a type newly taught to
@@ -196,7 +212,16 @@ func genExt(c *vh.Ctx, id uint16, allSigs []uint16) tls.TLSExtension {
 	case 18:
 		return &tls.SCTExtension{}
 	case 21:
-		return &tls.UtlsPaddingExtension{GetPaddingLen: tls.BoringPaddingStyle}
+		// the BoringSSL heuristic, or an explicit length (short, long, and lengths the heuristic would never pick)
+		padCycle++
+		switch l := []int{0, 1, 17, 100, 300, -1, 0, 5, 252, 511}[padCycle%10]; {
+		case l == 0:
+			return &tls.UtlsPaddingExtension{GetPaddingLen: tls.BoringPaddingStyle}
+		case l < 0:
+			return &tls.UtlsPaddingExtension{PaddingLen: 1 + r.Intn(700), WillPad: true}
+		default:
+			return &tls.UtlsPaddingExtension{PaddingLen: l, WillPad: true}
+		}
 	case 23:
 		return &tls.ExtendedMasterSecretExtension{}
 	case 24:
@@ -253,7 +278,9 @@ func run(c *vh.Ctx) {
 	c.Extra["known_but_not_json_expressible"] = fmt.Sprint(rest)
 	for k := 0; k < c.N || k < 3*len(expressible); k++ {
 		must := expressible[k%len(expressible)] // every expressible type is forced into >= 3 generated hellos
+		sizeMode = []int{0, 1, 0, 2}[(k/len(expressible)+k)%4]
 		spec := genSpec(c, must)
+		sizeMode = 0
 		raw, err := build(spec, tls.HelloCustom, c.Rng.Int63())
 		if err != nil {
 			c.Count("skip-generated-build-error")
